@@ -50,14 +50,19 @@ bool g_mt_locked;                           /* the tracer's mutex is held (by th
 size_t g_mt_lock_calls;                     /* number of lock operations (to see that a path did lock) */
 bool g_mt_bt_avail;                         /* aws_backtrace works on this platform (returns >= 1 frame) */
 size_t g_mt_stack_entries;                  /* entries of tracer->stacks (only grows) */
+struct aws_hash_element *g_mt_stack_elem;   /* element of tracer->stacks handed out by the last create */
+int g_mt_stack_created;                     /* ... and whether it was new */
+bool g_mt_stack_on;                         /* switch for the clauses about the stack record (on in the units that enforce track) */
 
 #define MT_GHOST_RESET()                                                                                               \
     do {                                                                                                               \
         GHOST_RESET_COMMON();                                                                                          \
         GHOST_RESET_ALLOC();                                                                                           \
         g_mt_locked = false;                                                                                           \
+        g_mt_stack_on = false;                                                                                         \
         g_mt_lock_calls = 0;                                                                                           \
         g_mt_found = NULL;                                                                                             \
+        g_mt_released = NULL;                                                                                          \
         g_mt_found_key = NULL;                                                                                         \
     } while (0)
 
@@ -131,6 +136,7 @@ const struct aws_allocator *g_mt_inner; /* tracer->traced_allocator */
 size_t g_mt_inner_calls;                /* requests that reached the wrapped allocator */
 const void *g_mt_inner_ptr;             /* arguments of the last one */
 size_t g_mt_inner_a, g_mt_inner_b;
+const void *g_mt_released;              /* the block the wrapped allocator took back last (NULL: none yet) */
 #define MT_INNER_RECORD(p, a, b)                                                                                       \
     __CPROVER_ensures(g_mt_inner_calls == __CPROVER_old(g_mt_inner_calls) + 1 && g_mt_inner_ptr == (p) &&              \
                       g_mt_inner_a == (a) && g_mt_inner_b == (b))
@@ -153,16 +159,17 @@ MT_INNER_RECORD(NULL, num, size)
 void mt_inner_release(struct aws_allocator *allocator, void *ptr)
 __CPROVER_requires(allocator != NULL && allocator == g_mt_inner)
 __CPROVER_requires(ptr == NULL || __CPROVER_is_freeable(ptr))
-__CPROVER_assigns(g_mt_inner_calls, g_mt_inner_ptr, g_mt_inner_a, g_mt_inner_b)
+__CPROVER_assigns(g_mt_inner_calls, g_mt_inner_ptr, g_mt_inner_a, g_mt_inner_b, g_mt_released)
 __CPROVER_frees(ptr)
 MT_INNER_RECORD(ptr, 0, 0)
+__CPROVER_ensures(g_mt_released == ptr)
 ;
 int mt_inner_realloc(struct aws_allocator *allocator, void **ptr, size_t oldsize, size_t newsize)
 __CPROVER_requires(allocator != NULL && allocator == g_mt_inner)
 __CPROVER_requires(ptr != NULL)
 __CPROVER_requires(*ptr == NULL ? oldsize == 0 : __CPROVER_is_freeable(*ptr))
 __CPROVER_requires(g_on ==> (*ptr != NULL && g_k < oldsize ==> g_old == ((const uint8_t *)*ptr)[g_k]))
-__CPROVER_assigns(*ptr, g_mt_inner_calls, g_mt_inner_ptr, g_mt_inner_a, g_mt_inner_b)
+__CPROVER_assigns(*ptr, g_mt_inner_calls, g_mt_inner_ptr, g_mt_inner_a, g_mt_inner_b, g_mt_released)
 __CPROVER_frees(newsize == 0 || VT_REALLOC_MOVES : *ptr)
 __CPROVER_ensures(__CPROVER_return_value == AWS_OP_SUCCESS)
 __CPROVER_ensures(newsize == 0 ==> *ptr == NULL)
@@ -172,6 +179,7 @@ __CPROVER_ensures(newsize > 0 ==> (__CPROVER_is_fresh(*ptr, newsize) ||
 __CPROVER_ensures(g_on && newsize > 0 && __CPROVER_old(*ptr) != NULL && g_k < oldsize && g_k < newsize ==>
                   ((const uint8_t *)*ptr)[g_k] == g_old)
 MT_INNER_RECORD(__CPROVER_old(*ptr), oldsize, newsize)
+__CPROVER_ensures(g_mt_released == (*ptr == __CPROVER_old(*ptr) ? __CPROVER_old(g_mt_released) : __CPROVER_old(*ptr)))
 ;
 
 #endif
